@@ -449,9 +449,14 @@ def replay(path):
     if d.get("kind") == "codec-replay":
         vh = build(d["build"])
         c = d["cfg"]
-        rc, outs, _ = vlib.run_vh(vh, ["codec-replay", "-type", c["type"], "-l0", str(c["l0"]), "-la", str(c["la"]), "-lb", str(c["lb"]),
-                                       "-seed", str(c["seed"]), "-base", str(c["index"])],
-                                  stdin_lines=[json.dumps(d["behaviour"], separators=(",", ":"))])
+        rc, outs, err = vlib.run_vh(vh, ["codec-replay", "-type", c["type"], "-l0", str(c["l0"]), "-la", str(c["la"]), "-lb", str(c["lb"]),
+                                         "-seed", str(c["seed"]), "-base", str(c["index"])],
+                                    stdin_lines=[json.dumps(d["behaviour"], separators=(",", ":"))], check=False)
+        if crashed(rc, err):
+            print("the harness process crashed inside the code under test:\n" + err[:1200])
+            return 1
+        if rc != 0:
+            raise vlib.MachineryError("codec-replay failed rc=%s: %s" % (rc, err[-2000:]))
         bad = [o for o in outs if o.get("ok") is False]
         for o in bad:
             o.pop("behaviour", None)
